@@ -11,7 +11,7 @@ PROP = {
     "technique": "Lean 4 proofs (kernel enumeration for bit tricks, loop invariants for sweep and pixel pipeline) + "
                  "three-way differential correspondence on full frames",
     "streams": [{"name": "c15", "shards": {"quick": 4, "thorough": 16}}],
-    "modules": ["GbVerif.Model.Tile", "GbVerif.Model.Ppu", "GbVerif.Spec.Frame", "GbVerif.Proofs.Enum", "GbVerif.Proofs.PpuInterleave",
+    "modules": ["GbVerif.Model.Tile", "GbVerif.Model.Ppu", "GbVerif.Spec.Bits", "GbVerif.Spec.Frame", "GbVerif.Proofs.Enum", "GbVerif.Proofs.PpuInterleave",
                 "GbVerif.Proofs.PpuBits"],
     "exhaustive": False,
     "rule": "quick 300 / thorough 30000 full frames (23040 pixels each) from power-on through VideoState's public API in random "
